@@ -23,28 +23,25 @@ func skolemize(t *Term, positive bool) *Term {
 	switch t.op {
 	case "not":
 		return Not(skolemize(t.args[0], !positive))
-	case "and":
-		if positive {
-			out := make([]*Term, len(t.args))
-			for i, a := range t.args {
-				out[i] = skolemize(a, true)
-			}
-			return And(out...)
+	case "and": // monotone: the polarity passes through
+		out := make([]*Term, len(t.args))
+		for i, a := range t.args {
+			out[i] = skolemize(a, positive)
 		}
+		return And(out...)
 	case "or":
-		if !positive {
-			out := make([]*Term, len(t.args))
-			for i, a := range t.args {
-				out[i] = skolemize(a, false)
-			}
-			return Or(out...)
+		out := make([]*Term, len(t.args))
+		for i, a := range t.args {
+			out[i] = skolemize(a, positive)
+		}
+		return Or(out...)
+	case "ite":
+		if t.sort == BoolS && !t.args[0].bound {
+			return Ite(t.args[0], skolemize(t.args[1], positive), skolemize(t.args[2], positive))
 		}
 	case "=>":
-		if !positive { // not (a => b)  ==  a and not b
-			return Implies(skolemize(t.args[0], true), skolemize(t.args[1], false))
-		}
-		// positive a => (exists ...): only safe to skolemise the consequent (witness may depend on nothing else)
-		return Implies(t.args[0], skolemize(t.args[1], true))
+		// a => b == (not a) or b: the antecedent has the opposite polarity
+		return Implies(skolemize(t.args[0], !positive), skolemize(t.args[1], positive))
 	case "forall":
 		if !positive && !t.bound {
 			m := map[int]*Term{}
@@ -65,17 +62,46 @@ func skolemize(t *Term, positive bool) *Term {
 	return t
 }
 
-// groundIndexTerms collects the ground 64-bit index terms of select applications.
-func groundIndexTerms(t *Term, seen map[int]bool, out map[int]*Term) {
+// arrayRoot peels stores (and ite branches are not followed) off an array term.
+func arrayRoot(a *Term) *Term {
+	for a.op == "store" {
+		a = a.args[0]
+	}
+	return a
+}
+
+// groundIndexTerms collects the ground 64-bit index terms of select applications, grouped by the root
+// of the array they read (stores peeled off).
+func groundIndexTerms(t *Term, seen map[int]bool, out map[int]map[int]*Term) {
 	if seen[t.id] {
 		return
 	}
 	seen[t.id] = true
 	if t.op == "select" && !t.args[1].bound && t.args[1].sort == I64 {
-		out[t.args[1].id] = t.args[1]
+		r := arrayRoot(t.args[0])
+		if !r.bound {
+			if out[r.id] == nil {
+				out[r.id] = map[int]*Term{}
+			}
+			out[r.id][t.args[1].id] = t.args[1]
+		}
 	}
 	for _, a := range t.args {
 		groundIndexTerms(a, seen, out)
+	}
+}
+
+// arraysRead collects the roots of the arrays a quantified body reads at an index containing v.
+func arraysRead(body *Term, seen map[int]bool, out map[int]bool) {
+	if seen[body.id] || !body.bound {
+		return
+	}
+	seen[body.id] = true
+	if body.op == "select" && body.args[1].bound {
+		out[arrayRoot(body.args[0]).id] = true
+	}
+	for _, a := range body.args {
+		arraysRead(a, seen, out)
 	}
 }
 
@@ -142,28 +168,67 @@ func collectForalls(t *Term, guard *Term, out *[]hyp) {
 	}
 }
 
-// instantiateQuery returns extra conjuncts (instances of the universal hypotheses of f).
-func instantiateQuery(f *Term) *Term {
-	f = skolemize(f, true)
+// instantiateQuery returns f with instances of its universal hypotheses added. If neg (the negated goal,
+// one of the conjuncts of f) is given, the selection is goal-directed: the first round instantiates at the
+// index terms of the goal only, the following rounds at the index terms of the instances added so far.
+func instantiateQuery(f *Term, neg *Term) *Term {
+	var seedsT *Term
+	if neg != nil && f.op == "and" {
+		// skolemise conjunct by conjunct so that the goal's skolem constants are known
+		out := make([]*Term, len(f.args))
+		found := false
+		for i, a := range f.args {
+			out[i] = skolemize(a, true)
+			if a == neg {
+				seedsT = out[i]
+				found = true
+			}
+		}
+		f = And(out...)
+		if !found {
+			seedsT = nil
+		}
+	} else {
+		f = skolemize(f, true)
+	}
 	extra := []*Term{}
 	done := map[string]bool{}
 	cur := f
-	for round := 0; round < 2; round++ {
+	seedFrom := seedsT
+	for round := 0; round < 3; round++ {
 		var hyps []hyp
 		collectForalls(cur, nil, &hyps)
 		if len(hyps) == 0 {
 			break
 		}
-		idxs := map[int]*Term{}
-		groundIndexTerms(cur, map[int]bool{}, idxs)
-		if len(idxs) == 0 || len(idxs) > 600 {
+		byRoot := map[int]map[int]*Term{}
+		if seedFrom != nil {
+			groundIndexTerms(seedFrom, map[int]bool{}, byRoot)
+		} else {
+			groundIndexTerms(cur, map[int]bool{}, byRoot)
+		}
+		if len(byRoot) == 0 {
 			break
 		}
 		added := 0
+		var newInst []*Term
 		for _, h := range hyps {
 			v := h.q.bvars[0]
 			offs := map[int]*Term{}
 			offsetsOf(h.q.args[0], v, map[int]bool{}, offs)
+			// candidate instances: index terms at which the query reads one of the arrays the hypothesis
+			// talks about
+			roots := map[int]bool{}
+			arraysRead(h.q.args[0], map[int]bool{}, roots)
+			idxs := map[int]*Term{}
+			for r := range roots {
+				for id, ix := range byRoot[r] {
+					idxs[id] = ix
+				}
+			}
+			if len(idxs) > 600 {
+				continue
+			}
 			for _, b := range offs {
 				for _, ix := range idxs {
 					inst := subOffset(ix, b)
@@ -181,6 +246,7 @@ func instantiateQuery(f *Term) *Term {
 						continue
 					}
 					extra = append(extra, body)
+					newInst = append(newInst, body)
 					added++
 					if added > 1500 {
 						break
@@ -192,6 +258,9 @@ func instantiateQuery(f *Term) *Term {
 			break
 		}
 		cur = And(append([]*Term{f}, extra...)...)
+		if seedsT != nil {
+			seedFrom = And(newInst...)
+		}
 	}
 	return And(append([]*Term{f}, extra...)...)
 }
